@@ -52,7 +52,7 @@ theorem makeMut_of_unique {h : Heap} {id : Nat} (h1 : rcOf h id = 1) : makeMut h
 def PathUniq (h : Heap) : Val → List Int → Prop
   | _, [] => True
   | .ref id, i :: rest =>
-    rcOf h id = 1 ∧ ∀ j, pyIndex (payloadOf h id).length i = some j → PathUniq h ((payloadOf h id).getD j .null) rest
+    rcOf h id = 1 ∧ ∀ j, slotOf h id i = some j → PathUniq h ((payloadOf h id).getD j .null) rest
   | _, _ :: _ => True
 
 /-- the value at the end of the path, if it is a list, is uniquely owned too (needed when the leaf
@@ -61,8 +61,19 @@ def EndUniq (h : Heap) : Val → List Int → Prop
   | .ref id, [] => rcOf h id = 1
   | _, [] => True
   | .ref id, i :: rest =>
-    ∀ j, pyIndex (payloadOf h id).length i = some j → EndUniq h ((payloadOf h id).getD j .null) rest
+    ∀ j, slotOf h id i = some j → EndUniq h ((payloadOf h id).getD j .null) rest
   | _, _ :: _ => True
+
+theorem slotOf_setAlloc_ne (h : Heap) {id id1 : Nat} (a : Alloc) (hne : ¬ id = id1) (i : Int) :
+    slotOf (setAlloc h id1 a) id i = slotOf h id i := by
+  unfold slotOf
+  rw [keysOf_setAlloc, payloadOf_setAlloc]
+  simp [hne]
+
+theorem walkMissing_copied (leaf : Leaf) (h : Heap) (id : Nat) (i : Int) (rest : List Int) :
+    (walkMissing leaf h id i rest).h.copied = h.copied := by
+  unfold walkMissing
+  split <;> rfl
 
 theorem PathUniq_frame {h : Heap} {id1 : Nat} (a : Alloc) (hz : pocc id1 h = 0) (hrc : a.rc = rcOf h id1) :
     ∀ (path : List Int) (v : Val), v ≠ .ref id1 → PathUniq h v path → PathUniq (setAlloc h id1 a) v path := by
@@ -78,9 +89,9 @@ theorem PathUniq_frame {h : Heap} {id1 : Nat} (a : Alloc) (hz : pocc id1 h = 0) 
       have hid : ¬ id = id1 := fun e => hne (by rw [e])
       simp only [PathUniq] at pu ⊢
       rw [rcOf_setAlloc, payloadOf_setAlloc]
-      simp only [hid, false_and, if_false]
+      simp only [hid, false_and, if_false, slotOf_setAlloc_ne h a hid]
       refine ⟨pu.1, fun j hj => ih _ ?_ (pu.2 j hj)⟩
-      exact ne_ref_of_pocc_zero hz (getD_mem _ (pyIndex_lt hj))
+      exact ne_ref_of_pocc_zero hz (getD_mem _ (slotOf_lt hj))
 
 theorem EndUniq_frame {h : Heap} {id1 : Nat} (a : Alloc) (hz : pocc id1 h = 0) (hrc : a.rc = rcOf h id1) :
     ∀ (path : List Int) (v : Val), v ≠ .ref id1 → EndUniq h v path → EndUniq (setAlloc h id1 a) v path := by
@@ -104,12 +115,12 @@ theorem EndUniq_frame {h : Heap} {id1 : Nat} (a : Alloc) (hz : pocc id1 h = 0) (
       have hid : ¬ id = id1 := fun e => hne (by rw [e])
       simp only [EndUniq] at eu ⊢
       rw [payloadOf_setAlloc]
-      simp only [hid, false_and, if_false]
-      exact fun j hj => ih _ (ne_ref_of_pocc_zero hz (getD_mem _ (pyIndex_lt hj))) (eu j hj)
+      simp only [hid, false_and, if_false, slotOf_setAlloc_ne h a hid]
+      exact fun j hj => ih _ (ne_ref_of_pocc_zero hz (getD_mem _ (slotOf_lt hj))) (eu j hj)
 
 /-- a leaf action that copies nothing when the slot value it is given is uniquely owned -/
-def LeafNoCopy (leaf : Heap → Val → WalkRes) : Prop :=
-  ∀ (h : Heap) (c : Val), EndUniq h c [] → (leaf h c).h.copied = h.copied
+def LeafNoCopy (leaf : Leaf) : Prop :=
+  ∀ (h : Heap) (c : Val), EndUniq h c [] → (leaf.act h c).h.copied = h.copied
 
 theorem setLeaf_nocopy (new : Val) : LeafNoCopy (setLeaf new) := fun h c _ => drop_copied h c
 theorem takeLeaf_nocopy : LeafNoCopy takeLeaf := fun _ _ _ => rfl
@@ -121,8 +132,10 @@ theorem popLeaf_nocopy : LeafNoCopy popLeaf := by
   | int n => rfl
   | ref id =>
     simp only [EndUniq] at eu
-    simp only [popLeaf, makeMut_of_unique eu]
-    split <;> rfl
+    simp only [popLeaf, popAct, makeMut_of_unique eu]
+    split
+    · rfl
+    · split <;> rfl
 
 theorem removeLeaf_nocopy (i : Int) : LeafNoCopy (removeLeaf i) := by
   intro h c eu
@@ -131,12 +144,14 @@ theorem removeLeaf_nocopy (i : Int) : LeafNoCopy (removeLeaf i) := by
   | int n => rfl
   | ref id =>
     simp only [EndUniq] at eu
-    simp only [removeLeaf, makeMut_of_unique eu]
-    split <;> rfl
+    simp only [removeLeaf, removeAct, makeMut_of_unique eu]
+    split
+    · split <;> rfl
+    · split <;> rfl
 
 /-- **in-place walk**: if every level of the path has strong count 1 (and the leaf action copies
 nothing on a unique slot value), `set_index` / `modify_existing_index` copy nothing. -/
-theorem walk_nocopy {leaf : Heap → Val → WalkRes} (L : LeafNoCopy leaf) :
+theorem walk_nocopy {leaf : Leaf} (L : LeafNoCopy leaf) :
     ∀ (path : List Int) (h : Heap) (v : Val) (T : List Val), Inv h (v :: T) →
       PathUniq h v path → EndUniq h v path → (walk leaf h v path).h.copied = h.copied := by
   intro path
@@ -152,13 +167,13 @@ theorem walk_nocopy {leaf : Heap → Val → WalkRes} (L : LeafNoCopy leaf) :
       simp only [EndUniq] at eu
       rw [walk_ref_cons, makeMut_of_unique pu.1]
       dsimp only
-      cases hp : pyIndex (payloadOf h id).length ix with
-      | none => rfl
+      cases hp : slotOf h id ix with
+      | none => exact walkMissing_copied _ _ _ _ _
       | some j =>
         dsimp only [walkStep]
         rw [setPayload_copied]
         obtain ⟨hz, _, hl⟩ := unique_facts i pu.1
-        have hj := pyIndex_lt hp
+        have hj := slotOf_lt hp
         have hcm : (payloadOf h id).getD j .null ∈ payloadOf h id := getD_mem _ hj
         have hcne : (payloadOf h id).getD j .null ≠ .ref id := ne_ref_of_pocc_zero hz hcm
         have i1 : Inv (setPayload h id ((payloadOf h id).set j .null))
@@ -170,7 +185,7 @@ theorem walk_nocopy {leaf : Heap → Val → WalkRes} (L : LeafNoCopy leaf) :
 
 /-- variant for leaf actions that never copy (plain assignment, consume): only the levels of the path
 matter -/
-theorem walk_nocopy' {leaf : Heap → Val → WalkRes} (L : ∀ h c, (leaf h c).h.copied = h.copied) :
+theorem walk_nocopy' {leaf : Leaf} (L : ∀ h c, (leaf.act h c).h.copied = h.copied) :
     ∀ (path : List Int) (h : Heap) (v : Val) (T : List Val), Inv h (v :: T) →
       PathUniq h v path → (walk leaf h v path).h.copied = h.copied := by
   intro path
@@ -185,13 +200,13 @@ theorem walk_nocopy' {leaf : Heap → Val → WalkRes} (L : ∀ h c, (leaf h c).
       simp only [PathUniq] at pu
       rw [walk_ref_cons, makeMut_of_unique pu.1]
       dsimp only
-      cases hp : pyIndex (payloadOf h id).length ix with
-      | none => rfl
+      cases hp : slotOf h id ix with
+      | none => exact walkMissing_copied _ _ _ _ _
       | some j =>
         dsimp only [walkStep]
         rw [setPayload_copied]
         obtain ⟨hz, _, hl⟩ := unique_facts i pu.1
-        have hj := pyIndex_lt hp
+        have hj := slotOf_lt hp
         have hcm : (payloadOf h id).getD j .null ∈ payloadOf h id := getD_mem _ hj
         have hcne : (payloadOf h id).getD j .null ≠ .ref id := ne_ref_of_pocc_zero hz hcm
         have i1 : Inv (setPayload h id ((payloadOf h id).set j .null))
@@ -217,6 +232,10 @@ theorem Tr.keeps_unique {h h' : Heap} {o F : List Val} (t : Tr h h' o F) {id : N
   have hp := occ_pos_of_mem hm
   refine ⟨by rw [t.tight id (by omega) (by omega)]; exact h1, ?_⟩
   exact t.stable.pay id (lt_of_rcOf_pos (by omega)) (.root hm)
+
+theorem Tr.keeps_keys {h h' : Heap} {o F : List Val} (t : Tr h h' o F) {id : Nat} (hm : Val.ref id ∈ F)
+    (h1 : rcOf h id = 1) : keysOf h' id = keysOf h id :=
+  t.stable.keys id (lt_of_rcOf_pos (by omega)) (.root hm)
 
 /-! ### the push counter: only `appendOp` pushes -/
 
@@ -258,7 +277,15 @@ theorem makeMut_pushes (h : Heap) (id : Nat) : (makeMut h id).1.pushes = h.pushe
   · rfl
   · simp [bumpAll_pushes]
 
-theorem walk_pushes {leaf : Heap → Val → WalkRes} (L : ∀ h c, (leaf h c).h.pushes = h.pushes) :
+@[simp] theorem setEntries_pushes (h : Heap) (id : Nat) (p : List Val) (ks : List Int) :
+    (setEntries h id p ks).pushes = h.pushes := rfl
+
+theorem walkMissing_pushes (leaf : Leaf) (h : Heap) (id : Nat) (i : Int) (rest : List Int) :
+    (walkMissing leaf h id i rest).h.pushes = h.pushes := by
+  unfold walkMissing
+  split <;> rfl
+
+theorem walk_pushes {leaf : Leaf} (L : ∀ h c, (leaf.act h c).h.pushes = h.pushes) :
     ∀ (path : List Int) (h : Heap) (v : Val), (walk leaf h v path).h.pushes = h.pushes := by
   intro path
   induction path with
@@ -270,32 +297,38 @@ theorem walk_pushes {leaf : Heap → Val → WalkRes} (L : ∀ h c, (leaf h c).h
     | int n => rfl
     | ref id =>
       rw [walk_ref_cons]
-      cases pyIndex (payloadOf (makeMut h id).1 (makeMut h id).2).length ix with
-      | none => exact makeMut_pushes h id
+      cases slotOf (makeMut h id).1 (makeMut h id).2 ix with
+      | none => dsimp only; rw [walkMissing_pushes, makeMut_pushes]
       | some j =>
         dsimp only [walkStep]
         rw [setPayload_pushes, ih, setPayload_pushes, makeMut_pushes]
 
-theorem setLeaf_pushes (new : Val) (h : Heap) (c : Val) : (setLeaf new h c).h.pushes = h.pushes := drop_pushes h c
-theorem takeLeaf_pushes (h : Heap) (c : Val) : (takeLeaf h c).h.pushes = h.pushes := rfl
-theorem popLeaf_pushes (h : Heap) (c : Val) : (popLeaf h c).h.pushes = h.pushes := by
+theorem setLeaf_pushes (new : Val) (h : Heap) (c : Val) : ((setLeaf new).act h c).h.pushes = h.pushes := drop_pushes h c
+theorem takeLeaf_pushes (h : Heap) (c : Val) : (takeLeaf.act h c).h.pushes = h.pushes := rfl
+theorem popLeaf_pushes (h : Heap) (c : Val) : (popLeaf.act h c).h.pushes = h.pushes := by
   cases c with
   | null => rfl
   | int n => rfl
   | ref id =>
-    simp only [popLeaf]
-    split
-    · simp [makeMut_pushes]
-    · exact makeMut_pushes h id
-theorem removeLeaf_pushes (i : Int) (h : Heap) (c : Val) : (removeLeaf i h c).h.pushes = h.pushes := by
-  cases c with
-  | null => rfl
-  | int n => rfl
-  | ref id =>
-    simp only [removeLeaf]
+    simp only [popLeaf, popAct]
     split
     · rfl
-    · simp [makeMut_pushes]
+    · split
+      · simp [makeMut_pushes]
+      · exact makeMut_pushes h id
+theorem removeLeaf_pushes (i : Int) (h : Heap) (c : Val) : ((removeLeaf i).act h c).h.pushes = h.pushes := by
+  cases c with
+  | null => rfl
+  | int n => rfl
+  | ref id =>
+    simp only [removeLeaf, removeAct]
+    split
+    · split
+      · rfl
+      · simp [makeMut_pushes]
+    · split
+      · exact makeMut_pushes h id
+      · simp [makeMut_pushes]
 
 theorem setIndex_pushes (h : Heap) (v : Val) (path : List Int) (new : Val) :
     (setIndex h v path new).h.pushes = h.pushes := by
@@ -338,12 +371,16 @@ theorem evalRhs_pushes (s : State) (r : Rhs) : (evalRhs s r).1.pushes = s.h.push
   | atom a => exact evalAtom_pushes s s.h a
   | list as => simp only [evalRhs, alloc]; exact evalAtoms_pushes s as s.h
   | rep a n => simp only [evalRhs, alloc, drop_pushes, bumpAll_pushes]; exact evalAtom_pushes s s.h a
+  | dict kvs => simp only [evalRhs, allocDict]; exact evalAtoms_pushes s _ s.h
 
 theorem appendOp_pushes_le (h : Heap) (a b : Val) : (appendOp h a b).1.pushes ≤ h.pushes + 1 := by
   cases a with
   | null => simp [appendOp, drop_pushes]
   | int n => simp [appendOp, drop_pushes]
-  | ref id => rw [appendOp_ref]; simp [appendHeap, makeMut_pushes]
+  | ref id =>
+    cases hk : keysOf h id with
+    | none => rw [appendOp_ref h id b hk]; simp [appendHeap, makeMut_pushes]
+    | some ks => rw [appendOp_dict h id b hk]; simp [drop_pushes]
 
 theorem appendFinish_pushes_le (s : State) (h : Heap) (x : Nat) (path : List Int) (l ev : Val) :
     (appendFinish s h x path l ev).1.h.pushes ≤ h.pushes + 1 := by
